@@ -68,6 +68,16 @@ pub struct Plan {
     pub sentinel: Vec<Call>,
     #[serde(default)]
     pub keep_log: bool,
+    /// Fault `heap_layout`: before anything runs, allocate this many blocks of seeded sizes
+    /// and free every other one, so that every later allocation lands at another address
+    /// than in the reference context (models "what the process allocated before" and
+    /// address-space differences between processes).
+    #[serde(default, skip_serializing_if = "is_zero")]
+    pub heap_perturb: u32,
+}
+
+fn is_zero(x: &u32) -> bool {
+    *x == 0
 }
 
 #[derive(Serialize, Deserialize, Clone, Debug)]
